@@ -107,6 +107,11 @@ def run(ctx, rep):
     rep.guarded("R02-BIGINTSITE", lambda: c04.r_bigintsites(sh, rep, "R02-BIGINTSITE"))
     rep.rule("R02-BLSNAMES", "bls381_compressor names G1 constants blst_p1_* and G2 constants blst_p2_* on every path", floor=2)
     rep.guarded("R02-BLSNAMES", lambda: r_blsnames(sh, rep))
+    if t:
+        rep.rule("R02-CANCEL", "cast_data_reducer drops a pair outer(inner(x)) only when the inner builtin cannot fail on any value and the outer one is its inverse", floor=4)
+        rep.guarded("R02-CANCEL", lambda: r_cancel(sh, rep, t, "R02-CANCEL"))
+    rep.rule("R02-DELAYSCAN", "occurrence analysis: the body of a delayed branch is scanned as not-delayed only where the sibling branch is `error`", floor=2)
+    rep.guarded("R02-DELAYSCAN", lambda: r_delayscan(sh, rep, "R02-DELAYSCAN"))
     rep.guarded("R02-CASE", lambda: r_case(sh, rep))
     rep.guarded("R02-WALK", lambda: r_walk(sh, rep))
     rep.guarded("R02-ONLY", lambda: r_only(sh, rep))
@@ -535,3 +540,117 @@ def r_blsnames(sh, rep):
             rep.check(bool(names) and not wrong, "R02-BLSNAMES", "bls381_compressor#G%s" % grp, sh.loc(SH, a), "the arm for G%s constants replaces a constant by a variable named %s: variables of the other group are bound to points of the other curve (or not bound at all), so the optimised program fails where the original returns a value" % (grp, wrong or "nothing"), sample={"names": names})
     if n < 2:
         rep.bad("R02-BLSNAMES", "bls381_compressor#arms", sh.loc(SH, f[0]), "expected one arm per BLS group in bls381_compressor")
+
+
+# ---------------------------------------------------------------------------------------------------------
+# R02-CANCEL: which builtin pairs the cast reducer may cancel
+# ---------------------------------------------------------------------------------------------------------
+SHR = "crates/uplc/src/optimize/shrinker.rs"
+
+
+def r_cancel(sh, rep, t, rid):
+    """`outer(inner(x))` may be replaced by `x` only if (a) inner is total on values of its argument type — otherwise the
+    rewrite removes an abort: `iData(unIData d)` aborts when d is not an integer, and that abort is how an untraced
+    `expect i: Int = d` is implemented — and (b) outer is inner's inverse. (a) is read off the evaluator: the failure exits
+    of the inner builtin's call arm (same extraction as R02-FOLD); (b) from the builtin names (X / UnX)."""
+    f = [fn for q, fn in all_fns(sh.file(SHR)) if q.endswith("Term::cast_data_reducer")]
+    if not f:
+        raise AnchorMissing("Term::cast_data_reducer")
+    rep.touched(SHR, "Term::cast_data_reducer")
+    pairs = []
+    for m in matches_in(f[0]["body"]):
+        if m["e"].get("k") != "Tuple" or len(m["e"].get("es", [])) != 2:
+            continue
+        for a in m["arms"]:
+            alts = pat_alts(a["pat"])
+            pr = []
+            for alt in alts:
+                if alt.get("k") in ("PTuple", "Tuple") and len(alt["elems"]) == 2:
+                    hs = [pat_head(e) for e in alt["elems"]]
+                    if all(h and h.startswith("DefaultFunction::") for h in hs):
+                        pr.append((last(hs[0]), last(hs[1]), alt))
+            if pr and any(x.get("k") == "Assign" and sh.nsrc(SHR, x["l"]) == "*self" for x in walk(a["body"])):
+                pairs += pr
+    if len(pairs) < 4:
+        raise AnchorMissing("cancelled (outer, inner) builtin pairs in cast_data_reducer (found %d)" % len(pairs))
+    for outer, inner, node in pairs:
+        arm = t.call.get(inner)
+        # failure exits that depend on the *value*: argument-type errors cannot occur in type-checked compiler output, and
+        # the arm's internal panics are invariants discharged by C10's audit
+        exits = [e for e in (exits_of(sh, RT, arm) if arm else ["?no-arm"]) if e not in ("Err:TypeMismatch", "Err:NotAConstant") and not e.startswith("panic:")]
+        inverse = outer == "Un" + inner or inner == "Un" + outer
+        rep.check(not exits and inverse, rid, "cast_data_reducer#%s(%s x)" % (outer, inner), sh.loc(SHR, node), "cast_data_reducer rewrites `%s(%s x)` to `x`, but %s can fail on a value of its argument type (%s)%s: the rewrite turns an aborting program into a succeeding one — e.g. an untraced `expect` followed by an upcast of the result" % (outer, inner, inner, ", ".join(exits) or "-", "" if inverse else "; and the two are not inverse"), why_ok="inner builtin has no failure exit", sample={"outer": outer, "inner": inner, "inner_exits": exits})
+
+
+# ---------------------------------------------------------------------------------------------------------
+# R02-DELAYSCAN: when may the inliner treat a delayed branch as "will execute"
+# ---------------------------------------------------------------------------------------------------------
+def r_delayscan(sh, rep, rid):
+    """The inliner moves a single-use binding to its use when the use `must execute` (VarLookup.delays == 0). A use inside
+    `(delay ..)` is not certain to run, so Term::var_occurrences adds a delay for it. carry_args_to_branch makes one
+    exception: for `if c then (delay body) else (delay error)` the body is scanned as if not delayed — sound, because the
+    other outcome aborts anyway. The exception is implemented by taking the delay apart (`let Term::Delay(x) = arg`) and
+    scanning `x`. Rule: a name bound to the *inside* of a branch's delay may be handed to the scan closures only under a
+    test that the sibling branch's inside is Term::Error; every other path must scan the branch arguments as they came
+    (delay included). Otherwise `let n = f(d); if c { use(n) } else { True }` has `f(d)` moved into the branch and a
+    program that aborts (strict let) returns True when c is false."""
+    f = [fn for q, fn in all_fns(sh.file(SHR)) if q.endswith("Term::carry_args_to_branch")]
+    if not f:
+        raise AnchorMissing("Term::carry_args_to_branch")
+    fn = f[0]
+    rep.touched(SHR, "Term::carry_args_to_branch")
+    params = [i["pat"].get("name") for i in fn["sig"]["inputs"] if isinstance(i.get("pat"), dict)]
+    closures = {p_ for p_ in params if p_ and p_.startswith("var_occurrence")}
+    scanners = set(closures)
+    # local closures that forward to a scan closure (combine_capped)
+    for n in walk(fn["body"]):
+        if n.get("k") == "Local" and n["pat"].get("k") == "Ident" and n.get("init") is not None and n["init"].get("k") == "Closure":
+            if any(c.get("k") == "Call" and call_name(c) in closures for c in walk(n["init"]["body"])):
+                scanners.add(n["pat"]["name"])
+    # names bound to the inside of a delay: (name, position after which the name means the inside, source param)
+    insides = []
+    for n in walk(fn["body"]):
+        if n.get("k") == "Local" and n["pat"].get("k") == "PTupleStruct" and last(n["pat"]["p"]) == "Delay" and n.get("init") is not None:
+            nm = n["pat"]["elems"][0].get("name") if n["pat"]["elems"] and n["pat"]["elems"][0].get("k") == "Ident" else None
+            src = re.sub(r"\.as_ref\(\)$", "", sh.nsrc(SHR, n["init"]))
+            if nm:
+                insides.append((nm, (n["s"][2], n["s"][3]), src))
+    if len(insides) < 2:
+        raise AnchorMissing("the two `let Term::Delay(..) = <branch>` destructurings in carry_args_to_branch (found %d)" % len(insides))
+
+    def is_inside(name, pos):
+        return any(nm == name and pos > after for nm, after, _ in insides)
+
+    def error_guards(node, acc, out):
+        """collect, for every scanner call, the names tested `matches!(<name>.as_ref(), Term::Error)` on the path to it"""
+        if isinstance(node, dict):
+            if node.get("k") == "If":
+                tested = set()
+                for x in walk(node["cond"]):
+                    if x.get("k") == "Macro" and x.get("path") == "matches" and x.get("e") is not None and x.get("pat") is not None and (x["pat"].get("p") or "").endswith("Term::Error"):
+                        tested.add(re.sub(r"\.as_ref\(\)$", "", sh.nsrc(SHR, x["e"])))
+                error_guards(node["cond"], acc, out)
+                error_guards(node["then"], acc | tested, out)
+                error_guards(node.get("else"), acc, out)
+                return
+            if node.get("k") == "Call" and call_name(node) in scanners:
+                out.append((node, set(acc)))
+            for v in node.values():
+                error_guards(v, acc, out)
+        elif isinstance(node, list):
+            for v in node:
+                error_guards(v, acc, out)
+
+    calls = []
+    error_guards(fn["body"], set(), calls)
+    n_ok = 0
+    for c, guards in calls:
+        pos = (c["s"][0], c["s"][1])
+        for a in c["args"]:
+            if a.get("k") == "Path" and is_inside(a["p"], pos):
+                others = {nm for nm, _, _ in insides if nm != a["p"]} | ({a["p"]} if len({nm for nm, _, _ in insides}) == 1 else set())
+                ok = bool(guards & others)
+                n_ok += 1
+                rep.check(ok, rid, "carry_args_to_branch#scans-delay-inside#%s#line-offset-%d" % (a["p"], n_ok), sh.loc(SHR, c), "`%s` is the inside of a branch's delay here, and it is scanned as if it were certain to execute without a test that the sibling branch is `error` (guards on this path: %s): a single-use binding is then inlined into one branch of an if/else, and when the other branch is taken the binding's abort never happens" % (a["p"], sorted(guards) or "none"), sample={"name": a["p"], "guards": sorted(guards)})
+    if n_ok < 2:
+        rep.bad(rid, "carry_args_to_branch#exception-sites", sh.loc(SHR, fn), "only %d scan(s) of a delay's inside found; the `else error` / `then error` exceptions are 2 (anchor)" % n_ok)
